@@ -171,6 +171,19 @@ def run(ck, models, tier):
                         a0 = ev.args[0].e if ev and isinstance(ev.args[0], (Opaque, Int)) else None
                         if a0 is not None and a0.op == "field" and a0.args[0].op == "downcast" and a0.args[0].args[0] == lr and a0.args[0].args[1] == 1:
                             ok, form = True, "into_inner() of the PoisonError of the same lock() call"
+                    elif re_.op == "ret" and re_.args[0].endswith("Result::<T, E>::unwrap_or_else"):
+                        ev = find_event(v, re_.args[0], re_.args[1])
+                        a0 = ev.args[0].e if ev and isinstance(ev.args[0], (Opaque, Int)) else None
+                        h = ev.args[1] if ev and len(ev.args) > 1 else None
+                        handler_ok = False
+                        if isinstance(h, FnVal) and h.path.endswith("PoisonError::<T>::into_inner"):
+                            handler_ok = True
+                        elif h is not None and h.__class__.__name__ == "ClosureV":
+                            cv = tm.try_variants(h.path) or []
+                            handler_ok = len(cv) == 1 and cv[0].status == "returned" and isinstance(cv[0].ret, Opaque) and \
+                                cv[0].ret.e.op == "ret" and cv[0].ret.e.args[0].endswith("PoisonError::<T>::into_inner")
+                        if a0 is not None and a0 == lr and handler_ok:
+                            ok, form = True, "lock().unwrap_or_else(PoisonError::into_inner): Ok payload, or the guard inside the PoisonError of the same call"
                     # lock is on self's mutex
                 ck.ob("R4.2", "%s/returns-own-guard" % short(wfn), tm.target, ok,
                       "returns %s (%s)" % (fmt(re_, 5) if re_ is not None else r, form), where(lockev[0]) if lockev else None)
